@@ -24,10 +24,14 @@ def rule_a(ctx):
     rid = "C10.a"
     ctx.rule(rid, "report-and-clear is one RMW: a flag-backed slot yields Some only on the branch where an atomic RMW writing `false` observed "
                   "`true`; a channel-backed slot yields exactly what Channel::recv returned", floor=3)
+    from .. import inline
     loads = [i for i in F.inst if i.local and i.body is not None and re.search(r"Exfiltrator>::load$", i.name)]
-    for l in loads:
-        ctx.fn(l)
-        key = "load<%s>" % exf_of(l.name)
+    for l0 in loads:
+        ctx.fn(l0)
+        key = "load<%s>" % exf_of(l0.name)
+        # normal form: private helpers and std adapters (`.ok().map(|_| signal)`) inlined; the channel's and other exfiltrators' methods stay calls
+        l = inline.cached(F, l0, keep=lambda c: c.name.startswith("signal_hook::low_level::channel::Channel::<") or re.search(r"Exfiltrator>::\w+$", c.name) is not None,
+                          tag="exf", hof=True, thread=True)
         somes = [(bb, si, s) for bb, bl in enumerate(l.blocks) for si, s in enumerate(bl["s"]) if s["k"] == "assign" and s["r"]["k"] == "aggregate"
                  and s["r"].get("def") == "core::option::Option" and s["r"]["variant"] == "Some"]
         ats = [s for s in sites(F, l) if s.aty == "bool"]
@@ -58,7 +62,7 @@ def rule_a(ctx):
                 if not good:
                     okk = False; why.append({"where": s["sp"], "facts": [(show(c), i) for c, i, _ in facts]})
             ctx.check(okk, rid, key + ":rmw-report-and-clear", "Some(signal) is produced only where compare_exchange(true -> false) succeeded (or swap(false) returned true)",
-                      l.span, why or {"atomic_ops": [a.op for a in ats]})
+                      l0.span, why or {"atomic_ops": [a.op for a in ats]})
         else:
             # channel-backed or delegating: the returned value derives from Channel::recv / the delegate's load
             rets = [deep_strip(e) for rb in l.exits() for e in flow(l).place({"l": 0, "p": []}, (rb, len(l.stmts(rb))))]
@@ -66,13 +70,8 @@ def rule_a(ctx):
             calls = {(l.term(x[1]).get("def") or "") for x in d if x[0] == "call"}
             srcs = [c for c in calls if c.endswith("Channel::<T>::recv") or c.endswith("Exfiltrator::load") or "Exfiltrator>::load" in c]
             # through and_then(|s| s.recv()) the recv call sits in the closure
-            if not srcs:
-                for c in F.inst:
-                    if c.kind == "closure" and c.name.startswith(l.name + "::{closure") and c.body is not None:
-                        if any((t.get("def") or "").endswith("Channel::<T>::recv") for _, t in c.calls()):
-                            srcs.append("closure:recv")
             ctx.check(bool(srcs), rid, key + ":value-from-recv", "the reported record is what the per-signal channel (or the delegate exfiltrator) handed out: taken exactly once",
-                      l.span, sorted(calls))
+                      l0.span, sorted(calls))
 
 
 def _arg_from(m, ce, call_bb):
@@ -160,19 +159,14 @@ def rule_c(ctx):
     rid = "C10.c"
     ctx.rule(rid, "faithful record: the dispatcher hands every action its own `info` argument; the action forwards it to store; the raw exfiltrator "
                   "sends a by-value copy of it; WithOrigin delegates store/load/init to the raw exfiltrator on the same slot", floor=6)
-    from ..anchors import action_site
-    h, found = action_site(F)
+    from . import reg
+    h, A = reg.handler_n(F)
+    found = reg.action_calls(F, A)
     if not found:
         raise AnchorLost("action call site of the dispatcher")
-    for (A, bb, t, chain) in found:
+    for (bb, t) in found:
         d = deps(A, flow(A).term_arg(bb, 1))
         cur = {x[1] for x in d if x[0] == "param"}
-        for (fm, cb) in reversed(chain):
-            nxt = set()
-            for pn in cur:
-                if pn - 1 < len(fm.term(cb)["args"]):
-                    nxt |= {x[1] for x in deps(fm, flow(fm).term_arg(cb, pn - 1)) if x[0] == "param"}
-            cur = nxt
         ctx.check(cur == {2}, rid, "dispatcher:info-argument", "the record passed to actions derives from the handler's own `info` pointer only", t["sp"], sorted(cur))
     for cl in action_closures(F):
         for sb, st in store_calls(F, cl):
